@@ -57,9 +57,10 @@ pub fn run_plans(check: &mut Check, plans: &[Plan], wall_budget: Duration) {
             let part = label(p.n, cfg);
             let m = model_for(p.n, *cfg).expect("unsupported N");
             let mut bc = BfsConfig::new(&part, p.depth);
-            // Each part gets an equal share of what is left of the budget.
+            // Each part may use up to four equal shares of what is left of the budget (most parts
+            // need far less than one share, the store-traced ones more).
             let left = wall_budget.saturating_sub(start.elapsed());
-            bc.wall_cap = (left / (total - done).max(1) as u32).max(Duration::from_secs(2));
+            bc.wall_cap = (left / (total - done).max(1) as u32 * 4).min(left).max(Duration::from_secs(2));
             bc.state_cap = 4_000_000;
             done += 1;
             bc.focus = Some(check.prop);
